@@ -30,9 +30,9 @@ class HelpResolver(DefaultResolver):
     def create_resolved_command(
         self, result
     ):  # type: (ResolveResult) -> ResolvedCommand
-        result.command.config.enable_lenient_args_parsing()
+        # The help of a command is displayed whatever else is on the command
+        # line: parse leniently instead of relying on the (strict) result
+        # that may have been cached while looking for a default command.
+        command = result.command
 
-        try:
-            return super(HelpResolver, self).create_resolved_command(result)
-        finally:
-            result.command.config.disable_lenient_args_parsing()
+        return ResolvedCommand(command, command.parse(result.raw_args, True))
